@@ -200,3 +200,7 @@ reg("C38", "rv-flow", "exploration", "observed account deposits/withdrawals vs s
     _FLOW + "for every manifest the static resource-movement analyser accepts and whose execution succeeds, the gross deposits and withdrawals per account and resource (from the vaults' own events) and the net change (pre/post database) must lie within the analyser's per-invocation and aggregated bounds (lower/upper amounts, required ids moved, ids within allow-lists, nothing moved where no invocation may move it).",
     _LEDGER_NOTE + " The faucet stands in as the unknown component; manifests that recall from / burn inside an observed account are skipped.", "DESIGN.md §4 C38")
 CHECKS["C36"]["note"] += " Run-time half: rv-flow executes every generated manifest regardless of the static verdict and reports an accepted manifest failing with BucketNotFound/ProofNotFound/AddressReservationNotFound under C36 (run `./check C09` / `/verif/target/release/rv-flow C36 quick`)."
+
+reg("C39", "rv-account", "exploration", "decision-table oracle (exhaustive finite table + random histories) vs observed deposits",
+    "The finite table of the property (default rule x preference history x vault history x authorized-depositor list x named badge x proof presence x single/batch composition incl. all 341 bucket sequences of length 0-4 x four method variants; 48112 cases, complete in the thorough tier, sampled in quick) and random histories on fresh and aged accounts are executed as third-party guarded deposits; the predicted outcome class (all deposited / all refunded / call failed) is compared with the call's own return value, exact pre/post balances and id sets of target, sender and a bystander account, refunded bucket contents, and the set of vaults written.",
+    _LEDGER_NOTE + " 'Already holds' = has a vault (a zero-balance vault counts); latest protocol only.", "DESIGN.md §4 C39")
